@@ -17,6 +17,19 @@ use crate::{
     },
 };
 
+/// The parser strips one file suffix from a source path:
+/// a path that still ends with the suffix is written with the suffix it lost.
+fn src_with_suffix(src: &StrName, suffix: &str) -> StrName {
+    if src.name.ends_with(suffix) {
+        StrName {
+            name: format!("{}{}", src.name, suffix).into(),
+            location: src.location.clone(),
+        }
+    } else {
+        src.clone()
+    }
+}
+
 impl Stringify for Template {
     fn stringify_write<'s, W: FmtWrite>(&self, stringifier: &mut Stringifier<'s, W>) -> FmtResult {
         let globals = &self.globals;
@@ -25,7 +38,7 @@ impl Stringify for Template {
             stringifier.write_str(r#"import "#)?;
             stringifier.write_token("src", None, &i.src_location)?;
             stringifier.write_str(r#"="#)?;
-            stringifier.write_str_name_quoted(&i.src)?;
+            stringifier.write_str_name_quoted(&src_with_suffix(&i.src, ".wxml"))?;
             stringifier.write_token("/", None, &i.tag_location.close)?;
             stringifier.write_token(">", None, &i.tag_location.start.1)?;
         }
@@ -86,7 +99,7 @@ impl Stringify for Template {
                     stringifier.write_str(r#" "#)?;
                     stringifier.write_token("src", None, src_location)?;
                     stringifier.write_str(r#"="#)?;
-                    stringifier.write_str_name_quoted(src)?;
+                    stringifier.write_str_name_quoted(&src_with_suffix(src, ".wxs"))?;
                     stringifier.write_token("/", None, &tag_location.close)?;
                     stringifier.write_token(">", None, &tag_location.start.1)?;
                 }
@@ -633,7 +646,8 @@ impl Stringify for Element {
             }
             ElementKind::Include { path } => {
                 stringifier.write_str("include")?;
-                write_named_static_attr(stringifier, "src", &path.0, &path.1)?;
+                let src = src_with_suffix(&path.1, ".wxml");
+                write_named_static_attr(stringifier, "src", &path.0, &src)?;
             }
             ElementKind::Slot {
                 name,
